@@ -101,6 +101,8 @@ type c20Case struct {
 	Stim  string // signal fail fail+signal signal+fail
 	Sig   string // INT TERM HUP
 	FailJ int
+	// HoldLock: deliver the signal while the harness holds the terminator's lock.
+	HoldLock bool
 }
 
 func c20Sig(s string) os.Signal {
@@ -253,7 +255,34 @@ func c20Run(r *vlib.Run, c *c20Case, dir string) {
 	fireSig := func() { lg.add("signal %s", c.Sig); sigC <- sig }
 	switch c.Stim {
 	case "signal":
-		fireSig()
+		if c.HoldLock {
+			// Hold the terminator's own lock while the signal is delivered: the
+			// signal task cannot record terminate/reload until it is released, so no
+			// task may observe the cancellation before that (an order in the log,
+			// the 15 ms only give an early cancellation time to show).
+			srv.t.mu.Lock()
+			fireSig()
+			time.Sleep(15 * time.Millisecond)
+			early := ""
+			for _, st := range sts {
+				if lg.has("ctx_done_seen "+st.name) || lg.has("run_exit "+st.name) && st.run == "block" {
+					early = st.name
+				}
+			}
+			lg.add("terminator_lock_released")
+			srv.t.mu.Unlock()
+			if early != "" {
+				r.Violation(c.ID, "cancelled-before-recorded", fmt.Sprintf("%s observed the cancellation while the signal had not yet been recorded as terminate/reload", early), det())
+				for _, st := range sts {
+					func() { defer func() { _ = recover() }(); close(st.stopGate) }()
+				}
+				<-done
+				return
+			}
+			r.Count("signals_delivered_with_terminator_lock_held", 1)
+		} else {
+			fireSig()
+		}
 	case "fail":
 		fireFail()
 	case "fail+signal":
@@ -493,6 +522,7 @@ func TestVerifC20(t *testing.T) {
 		c.Tasks[c.FailJ].Run = "fail"
 		if c.Stim == "signal" {
 			c.Tasks[c.FailJ].Run = "block"
+			c.HoldLock = i%8 == 0
 		}
 		if !r.Mine(c.ID) {
 			continue
